@@ -93,6 +93,8 @@ class Interp:
         self.obligations = []      # dict(site, kind, ok, detail, ctx)
         self.warnings = []         # unmodelled callees etc.
         self.calllog = []          # (callee, args, result) for watched callees
+        self.trace_names = None    # callee short names whose call sites are recorded, in execution order, in self.trace
+        self.trace = []
         self.watch = set()
         self.events = []
         self.ctx_label = None
@@ -884,6 +886,12 @@ class Interp:
         if k == "ref":
             cell, path = self.locate(state, fid, rv["place"])
             path = tuple(p for p in path)
+            if path and path[-1] == ("deref",):
+                # `&*x` where x is a reference the domain represents by its referent's value (a &str held as StrV, ...):
+                # the reborrow is that same reference - not a pointer into this frame, which would dangle after return
+                v = self.get_path(state, cell, path[:-1])
+                if v is not None and not isinstance(v, RefV):
+                    return v
             return RefV(cell, path, rv["mut"])
         if k == "rawptr":
             cell, path = self.locate(state, fid, rv["place"])
@@ -1425,6 +1433,8 @@ class Interp:
         c = t["callee"]
         args = [self.operand(state, fid, a) for a in t["args"]]
         name = c.get("instance") or c.get("path")
+        if self.trace_names and c.get("name") in self.trace_names:
+            self.trace.append((body.name, bb))
         try:
             st2, rv = self.call(state, c, name, args, body, t)
         except Diverge:
